@@ -394,6 +394,9 @@ class Ctx:
         if self.nofork:
             raise Inconclusive("fork needed but disabled")
         self.stats.forks += 1
+        if self.opts.get("profile_forks"):
+            site = " < ".join(x.split("::")[-1] for x in self.stack[-3:][::-1])
+            self.stats.funcs["@fork " + site] = self.stats.funcs.get("@fork " + site, 0) + 1
         self.reap(False)
         got = self.sem.acquire(block=False) if self.sem is not None else False
         sys.stdout.flush()
